@@ -12,7 +12,7 @@ occurrences gives the same per-string result; re-checked every run).
 import binascii, re
 from vf import core, acbuild
 
-THM = ["YaraModel.Thm.C05", "YaraModel.Thm.C05Cond", "YaraModel.Thm.C05EndToEnd", "YaraModel.Thm.AcCert", "YaraModel.Thm.AcBuild"]
+THM = ["YaraModel.Thm.C05", "YaraModel.Thm.C05Cond", "YaraModel.Thm.C05EndToEnd", "YaraModel.Thm.AcCert", "YaraModel.Thm.AcBuild", "YaraModel.Thm.AcLayout"]
 MANIFEST = dict(
     technique="Lean 4 theorem (per-string result is a function of the string and the buffer for EVERY candidate stage meeting the automaton contract) + alone-vs-company / permutation / prefix / source-split differential on the real compiler and scanner",
     text="proof: Thm/C05.lean proves that the modelled per-string result (offsets, admissible lengths/keys) is the same for ANY two candidate stages that each report exactly the occurrences "
@@ -23,7 +23,7 @@ MANIFEST = dict(
          "(monotonicity) and source splits/includes; the automaton contract itself is checked per case through hooks in C01, and Thm/AcBuild.lean proves it for the modelled "
          "construction of the SHARED automaton for every list of atoms (zero-length ones included) and every buffer (build_sound / build_scan_exact / build_candsOK: whatever else is inserted, each string's candidates are exactly "
          "the occurrences of its atoms); the construction model must build tables EQUAL to the real ones, and the real candidate sequence must EQUAL the model's scan and the specification sequence "
-         "(order included), for every company and every generated rule set (text, hex, regex; growth; zero-length atoms). Rule-set shapes and buffers are sampled.",
+         "(order included), for every company and every generated rule set (text, hex, regex; growth; zero-length atoms). Rule-set shapes and buffers are sampled. Further scenarios: rule-set wildcards `of (pfx*)` followed by rules whose identifiers are proper prefixes of / equal to / extensions of the prefix (rejected iff the identifier starts with the prefix, same namespace only; otherwise alone = company), and a LARGE company: 32 probe rules alone vs among 30000 / 42000 unrelated rules (shared automaton > 65535 and > 131072 transition-table slots; thorough: up to 90000 rules and the construction tie on a 100000-slot automaton). Thm/AcLayout.lean (Gen/AcLayout.lean regenerated from types.h / ahocorasick.[ch] by translators/aclayout.py) checks by `decide` that YR_AC_STATE.t_table_slot, the builder's locals, tables_size and the table element types cover every value below the builder's limit YR_AC_MAX_TRANSITION_TABLE_SIZE (that limit is only an assert in the code) and that the model's constants are the code's.",
     design_ref="DESIGN.md §5 C05",
     note=core.TB + "Text strings only in the theorem (hex/regex strings covered by the differential). Global rules are not added to the namespace of the rule under test (excluded by the property).")
 
@@ -128,6 +128,135 @@ def gen_company(r, gid):
     return rules, bufs
 
 
+WILD_PREFIXES = ["mal_fam", "ab", "r_1x", "Zq9", "k"]
+
+
+def gen_wild(r, g, lines, plan, werr, metas):
+    """rule-set wildcards: rules `<pfx>…`, a rule using `of (<pfx>*)`, then a LATE rule in the same namespace whose identifier is a proper
+    prefix of / equal to / an extension of / unrelated to the wildcard prefix. Documented outcome: the late rule is rejected
+    (ERROR_IDENTIFIER_MATCHES_WILDCARD) iff its identifier STARTS WITH the prefix; otherwise it compiles and its result — and the result of the
+    rule using the wildcard — are the same alone and in this company. In another namespace the late rule always compiles."""
+    pfx = r.choice(WILD_PREFIXES)
+    members = ["%s%s" % (pfx, suf) for suf in r.sample(["_a", "b", "_c1", "0", "Z"], r.randint(1, 3))]
+    kind = r.choice(["proper_prefix", "proper_prefix", "equal", "extension", "unrelated", "last_char_differs", "other_namespace"])
+    if kind == "proper_prefix" and len(pfx) < 2:
+        kind = "extension"
+    late = {"proper_prefix": pfx[:r.randint(1, max(1, len(pfx) - 1))], "equal": pfx, "extension": pfx + r.choice(["z9", "_", "0a", members[0][len(pfx):] + "x"]),
+            "unrelated": "q_" + pfx, "last_char_differs": pfx[:-1] + ("y" if pfx[-1] != "y" else "w"), "other_namespace": pfx + "_late"}[kind]
+    if late in members or late == "user":
+        late = late + "Q" if kind != "proper_prefix" else late
+    quant = r.choice(["any", "all", "1", "none"])
+    texts = ['rule %s { strings: $a = "%s" condition: $a }' % (m, r.choice(["efgh", "abcd", "zzzz"])) for m in members]
+    texts.append('rule user { strings: $u = "cdef" condition: %s of (%s*) or #u > 5 }' % (quant, pfx))
+    texts.append('rule %s { strings: $s0 = "abcd" condition: $s0 }' % late)
+    names = ["default:%s" % m for m in members] + ["default:user", ("nsb:%s" if kind == "other_namespace" else "default:%s") % late]
+    buf = r.choice([b"..abcdefgh..abcd", b"efgh", b"xxabcdxx", b""])
+    metas[g] = dict(rules=["default: " + t for t in texts], bufs=[hx(buf)], names=names, wildcard=dict(prefix=pfx, late=late, kind=kind))
+    n = len(texts)
+    head = "ns=default src=%s" % hx("\n".join(texts[:-1]))
+    full, alone, nolate = "w%d_full" % g, "w%d_alone" % g, "w%d_nolate" % g
+    late_ns = "nsb" if kind == "other_namespace" else "default"
+    if kind == "other_namespace":
+        lines.append("%s %s ns=nsb src=%s nsm=1 buf=%s" % (full, head, hx(texts[-1]), hx(buf)))
+    else:
+        lines.append("%s ns=default src=%s nsm=1 buf=%s" % (full, hx("\n".join(texts)), hx(buf)))
+    lines.append("%s ns=%s src=%s nsm=1 buf=%s" % (alone, late_ns, hx(texts[-1]), hx(buf)))
+    lines.append("%s %s nsm=1 buf=%s" % (nolate, head, hx(buf)))
+    rejected = kind != "other_namespace" and late.startswith(pfx)
+    if rejected:
+        werr.append((g, full, alone, kind))
+    else:
+        plan.append((g, n - 1, "wild_late_" + kind, alone, full))          # the late rule: alone vs in the company
+        for i in range(n - 1):
+            plan.append((g, i, "wild_company", nolate, full))                 # the wildcard rule and its members: with vs without the late rule
+
+
+LARGE_ALPHA = "abcdefghijklmnopqrstuvwxyz0123456789"
+LARGE_PROBES = [('rule probe_0 { strings: $a = "PROBEaaa" condition: $a }', b"PROBEaaa"),
+                ('rule probe_1 { strings: $a = "Xprobe01" nocase condition: #a == 2 }', b"xPROBE01..Xprobe01"),
+                ('rule probe_2 { strings: $a = "wideprb2" wide condition: $a }', b"w\0i\0d\0e\0p\0r\0b\0002\0"),
+                ('rule probe_3 { strings: $a = { 51 31 ?? 32 51 33 51 34 } condition: $a }', b"Q1_2Q3Q4"),
+                ('rule probe_4 { strings: $a = /zzTOP[a-z]{2}1/ condition: $a and !a[1] == 8 }', b"zzTOPqq1"),
+                ('rule probe_5 { strings: $a = "ab1" condition: #a == 3 }', b"ab1ab1.ab1"),
+                ('rule probe_6 { strings: $a = "fullprb6" fullword condition: $a at 2 or $a }', b" fullprb6 "),
+                ('rule probe_7 { strings: $a = "xorprob7" xor(1-3) condition: $a }', bytes(c ^ 2 for c in b"xorprob7"))]
+
+
+def gen_large(r, n):
+    """(source text, probe rule names, buffer): 8 fixed probe rules of different kinds + 24 of the generated ones, spread over `n` generated
+    unrelated rules with plain 8-character strings (about 3.8 transition-table slots per string: 30000 -> ~99000 slots, 42000 -> ~138000; non-leaf states beyond slot 65535 appear from ~27000 strings on)"""
+    words = ["".join(r.choice(LARGE_ALPHA) for _ in range(8)) for _ in range(n)]
+    rules = ['rule u%d { strings: $a = "%s" condition: $a }' % (i, w) for i, w in enumerate(words)]
+    picked = sorted(r.sample(range(n), 24))
+    names = ["probe_%d" % i for i in range(8)] + ["u%d" % i for i in picked]
+    alone = [t for t, _ in LARGE_PROBES] + [rules[i] for i in picked]
+    pos = sorted(r.sample(range(n), 5)) + [n, n, n]                      # probes at the start region, inside and at the very end
+    pos[0] = 0
+    out, k = [], 0
+    for i in range(n + 1):
+        while k < 8 and pos[k] == i:
+            out.append(LARGE_PROBES[k][0]); k += 1
+        if i < n:
+            out.append(rules[i])
+    buf = b"..".join([pl for _, pl in LARGE_PROBES] + [words[i].encode() for i in picked]) + b".."
+    return "\n".join(out), names, alone, buf
+
+
+def large_company(chk, b, tier, replay=None):
+    """a handful of probe rules compiled ALONE vs together with N generated unrelated rules, N large enough for the shared automaton to need more
+    than 65535 (and more than 131072) transition-table slots: verdicts and match lists of every probe must be the same. In the thorough tier one
+    such automaton (> 65535 slots) also goes through the construction tie: the Lean model of ahocorasick.c must build EQUAL tables."""
+    sizes = [30000, 42000] if tier == "quick" else [20000, 30000, 42000, 62000, 90000]
+    if replay:
+        cases = [(replay["n"], replay["lines"], replay["names"])]
+    else:
+        cases = []
+        for n in sizes:
+            src, names, alone, buf = gen_large(core.rng("C05-large-%d" % n), n)
+            lines = ["L%d_full ns=default src=%s nsm=1 actab=1 buf=%s" % (n, hx(src), hx(buf))]
+            lines += ["L%d_alone%d ns=default src=%s nsm=1 buf=%s" % (n, i, hx(t), hx(buf)) for i, t in enumerate(alone)]
+            cases.append((n, lines, names))
+    found, stats = False, []
+    for n, lines, names in cases:
+        if found:
+            break                                                              # one failing size is enough (a corrupted automaton may hang the next one)
+        outs, rc, err = core.run_parallel([b["h_scan"]], lines, timeout=180)    # the unchanged tree needs 2-8 s; a hang (corrupted automaton) is a result
+        om = {l.split(" ", 1)[0]: l for l in outs}
+        full = om.get("L%d_full" % n, "")
+        if rc != 0 or not full:
+            chk.violation("large_crash_%d.json" % n, {"kind": "%s compiling/scanning a large company (%d unrelated rules + probes that compile and scan alone)" %
+                                                      ("HANG (timeout)" if rc == -9 else "crash/sanitizer/no output", n), "rc": rc, "stderr": err, "harness": "h_scan",
+                                                      "large": True, "n": n, "lines": lines, "names": names})
+            found = True
+            continue
+        slots = [x.split(":")[1] for x in full.split() if x.startswith("actab=TOOBIG:")]
+        nmatch, bad = 0, []
+        for i, name in enumerate(names):
+            a = om.get("L%d_alone%d" % (n, i))
+            if a is None:
+                continue
+            ra, rb = result_of(a, "default:" + name), result_of(full, "default:" + name)
+            nmatch += 1 if (len(ra) == 2 and ra[1]) else 0
+            if ra != rb:
+                bad.append({"rule": name, "alone": ra, "in_company": rb})
+        stats.append({"unrelated_rules": n, "transition_table_slots": int(slots[0]) if slots else None, "probes": len(names), "probes_with_matches": nmatch, "differing": len(bad)})
+        if bad:
+            chk.violation("large_%d.json" % n, {"kind": "result of a rule depends on its company (large company: %d unrelated rules, %s transition-table slots)" % (n, slots[0] if slots else "?"),
+                                                "differing": bad, "harness": "h_scan", "large": True, "n": n, "lines": lines, "names": names})
+            found = True
+    if tier == "thorough" and not replay and not found:
+        # construction tie on an automaton with > 65535 slots: the Lean model of ahocorasick.c must build EQUAL tables (and the same candidates)
+        n = 30000
+        src, names, alone, buf = gen_large(core.rng("C05-large-%d" % n), n)
+        line = "T%d ns=default src=%s atoms=1 cands=1 actab=400000 buf=%s" % (n, hx(src), hx(buf))
+        outs, rc, err = core.run_lines([b["h_scan"]], [line], timeout=180)
+        badt = acbuild.compare(outs, {"T%d" % n: hx(buf)})
+        stats.append({"construction_tie_rules": n, "tables": dict(acbuild.compare.last), "mismatches": len(badt)})
+        found = acbuild.report(chk, badt, {"T%d" % n: line}, "large") or found
+    chk.cov["large_company"] = stats
+    return found
+
+
 def emit(rules, order, r=None, split=False):
     """h_scan tokens compiling the rules `order` (indices) in that order: one add_string per run of equal namespace
     (or, with split, further cut at random rule boundaries)"""
@@ -182,11 +311,14 @@ def result_of(line, nsname):
 
 def run(tier, replay=None):
     chk = core.Check("C05", tier)
-    lres = core.lean_check(THM)
-    core.proof_coverage(chk, lres, THM)
+    lres = core.lean_check(THM, translators=["aclayout"])     # Gen/AcLayout.lean: field widths / constants of the automaton tables, from the sources
+    core.proof_coverage(chk, lres, THM, translators=lres.get("translators"))
     b = core.build("asan", harness=["h_scan"])
     if replay and replay.get("acbuild"):                 # a filed construction mismatch: recompile that rule set, rebuild, compare
         core.handle_broken_proof(chk, lres, acbuild.replay(chk, b, replay))
+        return chk.finish("proof")
+    if replay and replay.get("large"):                   # a filed large-company difference: recompile that company and the probes alone
+        core.handle_broken_proof(chk, lres, large_company(chk, b, tier, replay))
         return chk.finish("proof")
     r = core.rng("C05")
     ng = 60 if tier == "quick" else 2500
@@ -241,8 +373,12 @@ def run(tier, replay=None):
                 lines.append("%s %s ns=%s src=%s nsm=1 buf=%s" % (lid, " ".join(incs), NSNAMES[rules[0]["ns"]], hx(main), hx(buf)))
                 for i in allidx:
                     plan.append((g, i, "include", lid, ref))
+    werr = []
+    for j in range(14 if tier == "quick" else 600):
+        gen_wild(core.rng("C05-wild-%d" % j), 100000 + j, lines, plan, werr, metas)
     if replay:
         lines = replay["lines"]; plan = [tuple(p) for p in replay["plan"]]; metas = {int(k): v for k, v in replay["metas"].items()}
+        werr = [tuple(x) for x in replay.get("werr", [])]
     outs, rc, err = core.run_parallel([b["h_scan"]], lines)
     om = {l.split(" ", 1)[0]: l for l in outs}
     found = False
@@ -294,10 +430,31 @@ def run(tier, replay=None):
                                                    "lines": [lm[lid], lm[ref]], "plan": [[g, i, variant, lid, ref]], "metas": {g: metas[g]}})
             nviol += 1
             found = True
+    # rule-set wildcards: a later identifier that STARTS WITH a used wildcard prefix must be rejected (and compile alone); nothing else may be
+    whist = {}
+    for g, full, alone, kind in werr:
+        a, c = om.get(alone), om.get(full)
+        if a is None or c is None:
+            continue
+        whist[kind] = whist.get(kind, 0) + 1
+        why = []
+        if a.split()[1] != "OK":
+            why.append("the late rule alone does not compile: %s" % " ".join(a.split()[1:3]))
+        if c.split()[1:3] != ["CERR", "IDENTIFIER_MATCHES_WILDCARD"]:
+            why.append("in the company the late rule (identifier starts with the wildcard prefix) gives %s instead of ERROR_IDENTIFIER_MATCHES_WILDCARD" % " ".join(c.split()[1:3]))
+        if why and nviol < 10:
+            chk.violation("wild_%d.json" % nviol, {"kind": "rule-set wildcard: outcome of a later rule differs from the documented one", "why": why, "group": g,
+                                                   "wildcard": metas[g]["wildcard"], "harness": "h_scan", "lines": [lm[full], lm[alone]], "plan": [],
+                                                   "werr": [[g, full, alone, kind]], "metas": {g: metas[g]}})
+            nviol += 1
+            found = True
+    chk.cov["wildcard_rule_sets"] = {"rejected_as_documented": whist, "accepted_and_compared": {k: v for k, v in hist.items() if k.startswith("wild")}}
     chk.cov.update({"evaluations": len(lines), "distinct_nontrivial": len(nontriv), "comparisons": len(plan), "comparisons_by_variant": hist,
                     "rule": "companies of 2-9 rules over colliding strings (text/hex/regex, modifiers), 3 planted buffers each; per rule: alone(+deps) vs company, prefix, "
                             "dependency-respecting permutation, source split over add_string calls, nested includes; non-trivial = the rule's strings have matches in the company run",
                     "traces_validated_against_impl": len(plan) - nviol,
                     "samples": [{"company": metas[min(metas)]["rules"], "buffer": metas[min(metas)]["bufs"][0]}]})
+    if not replay:
+        found = large_company(chk, b, tier) or found
     core.handle_broken_proof(chk, lres, found)
     return chk.finish("proof")
